@@ -161,7 +161,33 @@ func genConv(r *gen.R, validOnly bool) (mon.OpReq, Expect, convInfo, bool) {
 	}
 	why := ""
 	if !validOnly && r.Chance(0.12) {
-		switch r.Intn(6) {
+		switch r.Intn(7) {
+		case 6: // an operand without spatial axes (rank 0 or 1), with all, some or none of the attributes given
+			low := []int{}
+			if r.Bool() {
+				low = []int{r.Range(1, 4)}
+			}
+			switch r.Intn(3) {
+			case 0:
+				xs = low
+				x = primeTensor(r, dt, xs)
+			case 1:
+				ws = low
+				w = primeTensor(r, dt, ws)
+			default:
+				xs, ws = low, low
+				x, w = primeTensor(r, dt, xs), primeTensor(r, dt, ws)
+			}
+			switch r.Intn(3) {
+			case 0:
+				req.Attrs = nil
+			case 1:
+				if len(req.Attrs) > 0 {
+					i := r.Intn(len(req.Attrs))
+					req.Attrs = append(append([]*mon.Attr{}, req.Attrs[:i]...), req.Attrs[i+1:]...)
+				}
+			}
+			why = "operand without spatial axes"
 		case 0:
 			at.Group = 2
 			req.Attrs = append(req.Attrs, mon.AttrI("group", 2))
@@ -302,7 +328,7 @@ func c05Known(info convInfo) KnownMatcher {
 		// recorded defect "a kernel with one channel is broadcast over the input channels"
 		// (pinned by TestConv "multiple channels"): the observed tensor must equal the
 		// reference evaluated with the kernel repeated along the channel axis.
-		if info.w.Rank() == info.x.Rank() && info.w.Shape[1] == 1 && info.x.Shape[1] > 1 {
+		if info.w.Rank() >= 3 && info.w.Rank() == info.x.Rank() && info.w.Shape[1] == 1 && info.x.Shape[1] > 1 {
 			C := info.x.Shape[1]
 			ws := append([]int{}, info.w.Shape...)
 			ws[1] = C
